@@ -78,6 +78,8 @@ type FnCtx struct {
 	mapAx    map[string]bool
 	factSeen map[string]bool
 	ghosts   map[string]Val // ghost parameters of the function under verification
+	ghosts0  map[string]Val            // let ghosts: the unconstrained value they have where their call site has not been passed
+	ghostBlk map[string]*ssa.BasicBlock // let ghosts: the block of the call site that fixed the current value
 	rangeLoop map[int]*mapRange // map iterators of the function under verification, by loop ordinal
 	hookHits map[string]bool // call-site clauses (before call / assume call / let) that matched a call site
 	closureAx  map[string]bool
@@ -112,6 +114,14 @@ func (c *FnCtx) addFact(t *Term) {
 	}
 	c.factSeen[k] = true
 	c.facts = append(c.facts, t)
+}
+
+// ghostAt: the value of a ghost as seen from block b. A let ghost denotes the value fixed at the most recent passage
+// through its call site on the path taken (within a loop: in the iteration at hand) and is unconstrained on paths that
+// did not pass it: the term fixed there is only constrained under that site's reachability, so it can be used as is
+// (callers never see it: at call sites a callee's let ghosts are fresh).
+func (c *FnCtx) ghostAt(name string, b *ssa.BasicBlock) Val {
+	return c.ghosts[name]
 }
 
 // addMemFact records a fact that only matters to queries speaking about member() (kept out of all others).
